@@ -23,9 +23,35 @@ def showOpt : Option Nat → String
   | none => "0"
   | some v => toString v
 
+/-! two-member objects: object `i` lives at `TBASE + TSTRIDE*i`, its `la` node at `+OFFA`, its `lb`
+node at `+OFFB`; bare list heads at `HBASE + 16*j` -/
+def TBASE : Nat := 65536
+def TSTRIDE : Nat := 72
+def OFFA : Nat := 24
+def OFFB : Nat := 56
+def HBASE : Nat := 524288
+def tOff (m : Nat) : Nat := if m = 0 then OFFA else OFFB
+def tObj (i : Nat) : Nat := TBASE + TSTRIDE * i
+def tNode (i m : Nat) : Nat := tObj i + tOff m
+def tHead (j : Nat) : Nat := HBASE + 16 * j
+def tTok (st : DState) (v : Nat) : String :=
+  if v = POISON1 then "P1" else if v = POISON2 then "P2"
+  else if v ≥ HBASE then
+    (if (v - HBASE) % 16 = 0 then toString (st.n - st.nheads + (v - HBASE) / 16) else "?")
+  else if v ≥ TBASE then
+    let i := (v - TBASE) / TSTRIDE
+    let r := (v - TBASE) % TSTRIDE
+    if r = OFFA then s!"{i}a" else if r = OFFB then s!"{i}b" else "?"
+  else "?"
+
 def dump (st : DState) : String :=
   match st.kind with
-  | "c" => " ".intercalate ((List.range st.n).map fun i => s!"{i}:{showPtr (st.h.next i)}/{showPtr (st.h.prev i)}")
+  | "c" => if st.n > 16 then "" else
+      " ".intercalate ((List.range st.n).map fun i => s!"{i}:{showPtr (st.h.next i)}/{showPtr (st.h.prev i)}")
+  | "t" => " ".intercalate (((List.range (st.n - st.nheads)).map fun i =>
+        s!"{i}:a={tTok st (st.h.next (tNode i 0))}/{tTok st (st.h.prev (tNode i 0))},b={tTok st (st.h.next (tNode i 1))}/{tTok st (st.h.prev (tNode i 1))}")
+      ++ ((List.range st.nheads).map fun j =>
+        s!"{st.n - st.nheads + j}:{tTok st (st.h.next (tHead j))}/{tTok st (st.h.prev (tHead j))}"))
   | "x" => " ".intercalate ((List.range st.n).map fun i =>
       if st.alive.contains i then s!"{i}:{showPtr (st.h.next i)}/{showPtr (st.h.prev i)}" else s!"{i}:dead")
   | "s" => " ".intercalate ((List.range st.n).map fun i => s!"{i}:{st.s.next i}")
@@ -45,66 +71,11 @@ def parseLoc? (s : String) : Option Loc :=
   else if s.startsWith "N" then (s.drop 1).toNat?.map Loc.nodeNext
   else none
 
-def stepLine (st : DState) (line : String) : DState × String :=
-  let bad : DState × String := (st, "bad-op")
-  match words line with
-  | ["reset", "c", n] => match nat? n with
-    | some n =>
-      let h := (List.range n).foldl dlistInit ⟨fun x => x, fun x => x⟩
-      res { kind := "c", n := n, h := h } "ok"
-    | none => bad
-  | ["reset", "x", n, k] => match nat? n, nat? k with
-    | some n, some k =>
-      -- list heads n..n+k-1 are constructed, item nodes are not
-      let heads := (List.range k).map (· + n)
-      let h := heads.foldl nodeCtor ⟨fun x => x, fun x => x⟩
-      res { kind := "x", n := n + k, h := h, alive := heads, nheads := k } "ok"
-    | _, _ => bad
-  | ["reset", "s", n] => match nat? n with
-    | some n => res { kind := "s", n := n, s := ⟨fun x => x⟩ } "ok"
-    | none => bad
-  | ["reset", "h", n, k] => match nat? n, nat? k with
-    | some n, some k => res { kind := "h", n := n + k, nheads := k } "ok"
-    | _, _ => bad
-  | [op, a] => match nat? a with
-    | none => bad
-    | some a =>
-      match op with
-      | "cinit" => res { st with h := dlistInit st.h a } "ok"
-      | "cdel" => res { st with h := dlistDel st.h a } "ok"
-      | "cdel_init" => res { st with h := dlistDelInit st.h a } "ok"
-      | "csize" => res st (toString (dlistSize st.h FUEL a))
-      | "csize_rev" => res st (toString (dlistSizeReversed st.h FUEL a))
-      | "cempty" => res st (if dlistEmpty st.h a then "1" else "0")
-      | "ccorrect" => res st (if dlistIsCorrect st.h a then "1" else "0")
-      | "clist" => res st (ids (dlistToList st.h FUEL a))
-      | "clist_rev" => res st (ids (dlistToListRev st.h FUEL a))
-      | "xnew" => res { st with h := nodeCtor st.h a, alive := a :: st.alive } "ok"
-      | "xdel" => res { st with h := nodeDtor st.h a, alive := st.alive.erase a } "ok"
-      | "xlnew" => res { st with h := nodeCtor st.h a, alive := a :: st.alive } "ok"
-      | "xldel" => res { st with h := listClear st.h a FUEL, alive := st.alive.erase a } "ok"
-      | "xclear" => res { st with h := listClear st.h a FUEL } "ok"
-      | "xunlink" => res { st with h := nodeUnlink st.h a } "ok"
-      | "xpop_front" => res { st with h := listPopFront st.h a } "ok"
-      | "xpop_back" => res { st with h := listPopBack st.h a } "ok"
-      | "xsize" => res st (toString (circularSize st.h FUEL a - 1))
-      | "xempty" => res st (if st.h.next a ≠ a then "0" else "1")
-      | "xlinked" => res st (if st.h.next a ≠ a then "1" else "0")
-      | "xcorrect" => res st (if circularSize st.h FUEL a == reverseCircularSize st.h FUEL a then "1" else "0")
-      | "xiter" => res st (ids (dlistToList st.h FUEL a))
-      | "xriter" => res st (ids (dlistToListRev st.h FUEL a))
-      | "sinit" => res { st with s := slistInit st.s a } "ok"
-      | "spop" =>
-        let (s', r) := slistPopFirst st.s a
-        res { st with s := s' } (match r with | some v => toString v | none => "null")
-      | "ssize" => res st (toString (slistToList st.s FUEL a).length)
-      | "slist" => res st (ids (slistToList st.s FUEL a))
-      | "hhead_init" => res { st with hh := hlistHeadInit st.hh a } "ok"
-      | "hnode_init" => res { st with hh := hlistNodeInit st.hh a } "ok"
-      | "hdel" => res { st with hh := hlistDel st.hh a } "ok"
-      | "hlist" => res st (ids (hlistToList st.hh FUEL a))
-      | _ => bad
-  | [op, a, b] =>
+def XOFF : Addr := 8#64
+def xObj (id : Nat) : Addr := mcastOut (BitVec.ofNat 64 id) XOFF
+def xId (e : Addr) : Nat := (mcastIn e XOFF).toNat
+def step3 (st : DState) (op a b : String) : DState × String :=
+    let bad : DState × String := (st, "bad-op")
     if op = "hadd" then
       match nat? a, parseLoc? b with
       | some a, some loc => res { st with hh := hlistAddNext st.hh a loc } "ok"
@@ -128,10 +99,189 @@ def stepLine (st : DState) (line : String) : DState × String :=
       | "xmove_back" => res { st with h := nodeMovePrevThan st.h b a } "ok"
       | "xsplice" => res { st with h := listSplice st.h a b } "ok"
       | "sadd" => res { st with s := slistAdd st.s a b } "ok"
+      | "sxadd" => res { st with s := slistAdd st.s a b } "ok"
       | "smove_front" => res { st with s := slistMoveFront st.s FUEL a b } "ok"
-      | "sin" => res st (if (slistToList st.s FUEL a).contains b then "1" else "0")
+      | "sin" => res st (if slistIn st.s FUEL a b then "1" else "0")
+      | "cpoke_next" => res { st with h := st.h.setNext a b } "ok"
+      | "cpoke_prev" => res { st with h := st.h.setPrev a b } "ok"
+      | "xpop" => res { st with h := listPop st.h (xObj b) XOFF } "ok"            -- list a, item b
+      | "xmove_front_t" => res { st with h := listMoveNext st.h (xObj b) XOFF a } "ok"
+      | "xmove_back_t" => res { st with h := listMovePrev st.h (xObj b) XOFF a } "ok"
       | _ => bad
     | _, _ => bad
+-- the iterator reached from begin() by k increments
+def iterAt (h : Heap) (l : Nat) : Nat → Nat
+    | 0 => iterBegin h l
+    | k + 1 => iterInc h (iterAt h l k)
+def step4 (st : DState) (op l a b : String) : DState × String :=
+    let bad : DState × String := (st, "bad-op")
+    match nat? l, nat? a, nat? b with
+    | some l, some a, some b =>
+      match op with
+      | "xerase_if" =>
+        let r := listEraseIf (fun x => decide (x % a = b)) st.h FUEL l
+        res { st with h := r.1 } (ids r.2)
+      | "xmove_next_obj" => res { st with h := listMoveNext st.h (xObj a) XOFF (mcastIn (xObj b) XOFF).toNat } "ok"
+      | "xmove_prev_obj" => res { st with h := listMovePrev st.h (xObj a) XOFF (mcastIn (xObj b) XOFF).toNat } "ok"
+      | "xmove_next_it" => res { st with h := listMoveNextIt st.h (xObj a) XOFF (BitVec.ofNat 64 (iterAt st.h l b)) } "ok"
+      | "xmove_prev_it" => res { st with h := listMovePrevIt st.h (xObj a) XOFF (BitVec.ofNat 64 (iterAt st.h l b)) } "ok"
+      | _ => bad
+    | _, _, _ => bad
+def mem? (m : String) : Option Nat := if m = "a" then some 0 else if m = "b" then some 1 else none
+def tHeadOf (st : DState) (id : Nat) : Nat := tHead (id - (st.n - st.nheads))
+def tKey (e : Addr) : Nat := (e.toNat - TBASE) / TSTRIDE
+def tKeyOrEnd (st : DState) (off : Nat) (e : Addr) : String :=
+    let node := (mcastIn e (BitVec.ofNat 64 off)).toNat
+    if node ≥ HBASE then "end" ++ toString (st.n - st.nheads + (node - HBASE) / 16) else toString (tKey e)
+def stepT3 (st : DState) (op m a : String) : DState × String :=
+    let bad : DState × String := (st, "bad-op")
+    if op = "tinit" then
+      match nat? a with
+      | some a => (match m with
+        | "h" => res { st with h := dlistInit st.h (tHeadOf st a) } "ok"
+        | "a" => res { st with h := dlistInit st.h (tNode a 0) } "ok"
+        | "b" => res { st with h := dlistInit st.h (tNode a 1) } "ok"
+        | _ => bad)
+      | none => bad
+    else
+    match mem? m, nat? a with
+    | some m, some a =>
+      let off : Addr := BitVec.ofNat 64 (tOff m)
+      let hd : Addr := BitVec.ofNat 64 (tHeadOf st a)
+      let ob : Addr := BitVec.ofNat 64 (tObj a)
+      match op with
+      | "tdel" => res { st with h := dlistDelInit st.h (tNode a m) } "ok"
+      | "tdelp" => res { st with h := dlistDel st.h (tNode a m) } "ok"
+      | "tentries" => res st (ids ((dlistForEachEntry st.h FUEL hd off).map tKey))
+      | "tentries_rev" => res st (ids ((dlistForEachEntryReverse st.h FUEL hd off).map tKey))
+      | "tfirst" => res st (tKeyOrEnd st (tOff m) (dlistFirstEntry st.h hd off))
+      | "tlast" => res st (tKeyOrEnd st (tOff m) (dlistLastEntry st.h hd off))
+      | "tnext" => res st (tKeyOrEnd st (tOff m) (dlistNextEntry st.h ob off))
+      | "tprev" => res st (tKeyOrEnd st (tOff m) (dlistPrevEntry st.h ob off))
+      | "tsize" => res st (toString (dlistSize st.h FUEL (tHeadOf st a)))
+      | _ => bad
+    | _, _ => bad
+def stepT4 (st : DState) (op m a b : String) : DState × String :=
+    let bad : DState × String := (st, "bad-op")
+    match mem? m, nat? a, nat? b with
+    | some m, some a, some b =>
+      match op with
+      | "tadd" => res { st with h := dlistAddNext st.h (tNode a m) (tHeadOf st b) } "ok"
+      | "tadd_tail" => res { st with h := dlistAddPrev st.h (tNode a m) (tHeadOf st b) } "ok"
+      | "tmove" => res { st with h := dlistMove st.h (tNode a m) (tHeadOf st b) } "ok"
+      | "tmove_tail" => res { st with h := dlistMoveTail st.h (tNode a m) (tHeadOf st b) } "ok"
+      | "tmove_to" => res { st with h := dlistMove st.h (tNode a m) (tNode b m) } "ok"
+      | "tmove_tail_to" => res { st with h := dlistMoveTail st.h (tNode a m) (tNode b m) } "ok"
+      | "tsorted" => res { st with h := dlistMoveSorted st.h (fun x y => decide (x < y)) FUEL (tNode a m) (tHeadOf st b) } "ok"
+      | _ => bad
+    | _, _, _ => bad
+-- tsafe <m> <head> <p> <q> <mode> <tgt> | tsafe raw <m> <head> <p> <q>
+def stepTsafe (st : DState) (ws : List String) : DState × String :=
+    let bad : DState × String := (st, "bad-op")
+    match ws with
+    | ["raw", m, hd, p, q] => match mem? m, nat? hd, nat? p, nat? q with
+      | some m, some hd, some p, some q =>
+        let off : Addr := BitVec.ofNat 64 (tOff m)
+        let body := fun (h : Heap) (pos : Nat) =>
+          if tKey (mcastOut (BitVec.ofNat 64 pos) off) % p = q then dlistDelInit h pos else h
+        let r := dlistForEachSafe body st.h FUEL (tHeadOf st hd)
+        res { st with h := r.1 } (ids (r.2.map fun pos => tKey (mcastOut (BitVec.ofNat 64 pos) off)))
+      | _, _, _, _ => bad
+    | [m, hd, p, q, mode, tgt] => match mem? m, nat? hd, nat? p, nat? q, nat? mode, nat? tgt with
+      | some m, some hd, some p, some q, some mode, some tgt =>
+        let off : Addr := BitVec.ofNat 64 (tOff m)
+        let body := fun (h : Heap) (e : Addr) =>
+          if tKey e % p = q then
+            (if mode = 0 then dlistDelInit h (mcastIn e off).toNat
+             else if mode = 1 then dlistDel h (mcastIn e off).toNat
+             else dlistMoveTail h (mcastIn e off).toNat (tHeadOf st tgt))
+          else h
+        let r := dlistForEachEntrySafe body st.h FUEL (BitVec.ofNat 64 (tHeadOf st hd)) off
+        res { st with h := r.1 } (ids (r.2.map tKey))
+      | _, _, _, _, _, _ => bad
+    | _ => bad
+
+
+def stepLine (st : DState) (line : String) : DState × String :=
+  let bad : DState × String := (st, "bad-op")
+  match words line with
+  | ["reset", "c", n] => match nat? n with
+    | some n =>
+      let h := (List.range n).foldl dlistInit ⟨fun x => x, fun x => x⟩
+      res { kind := "c", n := n, h := h } "ok"
+    | none => bad
+  | ["reset", "x", n, k] => match nat? n, nat? k with
+    | some n, some k =>
+      -- list heads n..n+k-1 are constructed, item nodes are not
+      let heads := (List.range k).map (· + n)
+      let h := heads.foldl nodeCtor ⟨fun x => x, fun x => x⟩
+      res { kind := "x", n := n + k, h := h, alive := heads, nheads := k } "ok"
+    | _, _ => bad
+  | ["reset", "r", n] => match nat? n with
+    | some n =>
+      let h := (List.range n).foldl dlistInit ⟨fun x => x, fun x => x⟩
+      let h := (List.range (n - 1)).foldl (fun h i => dlistAddPrev h (i + 1) 0) h
+      res { kind := "c", n := n, h := h } "ok"
+    | none => bad
+  | ["reset", "t", n, k] => match nat? n, nat? k with
+    | some n, some k => res { kind := "t", n := n + k, nheads := k } "ok"
+    | _, _ => bad
+  | ["reset", "s", n] => match nat? n with
+    | some n => res { kind := "s", n := n, s := ⟨fun x => x⟩ } "ok"
+    | none => bad
+  | ["reset", "h", n, k] => match nat? n, nat? k with
+    | some n, some k => res { kind := "h", n := n + k, nheads := k } "ok"
+    | _, _ => bad
+  | ["toffsets"] => res st s!"{OFFA} {OFFB} {TSTRIDE}"
+  | "tsafe" :: rest => stepTsafe st rest
+  | [op, m, a] => if st.kind = "t" then stepT3 st op m a else step3 st op m a
+  | [op, m, a, b] => if st.kind = "t" then stepT4 st op m a b else step4 st op m a b
+  | [op, a] => match nat? a with
+    | none => bad
+    | some a =>
+      match op with
+      | "cinit" => res { st with h := dlistInit st.h a } "ok"
+      | "cdel" => res { st with h := dlistDel st.h a } "ok"
+      | "cdel_init" => res { st with h := dlistDelInit st.h a } "ok"
+      | "csize" => res st (toString (dlistSize st.h FUEL a))
+      | "csize_rev" => res st (toString (dlistSizeReversed st.h FUEL a))
+      | "cempty" => res st (if dlistEmpty st.h a then "1" else "0")
+      | "ccorrect" => res st (if dlistIsCorrect st.h a then "1" else "0")
+      | "ccorrect_strict" => res st (if dlistIsCorrect st.h a then "1" else "0")
+      | "clist" => res st (ids (dlistToList st.h FUEL a))
+      | "clist_rev" => res st (ids (dlistToListRev st.h FUEL a))
+      | "xnew" => res { st with h := nodeCtor st.h a, alive := a :: st.alive } "ok"
+      | "xdel" => res { st with h := nodeDtor st.h a, alive := st.alive.erase a } "ok"
+      | "xlnew" => res { st with h := nodeCtor st.h a, alive := a :: st.alive } "ok"
+      | "xldel" => res { st with h := listClear st.h a FUEL, alive := st.alive.erase a } "ok"
+      | "xclear" => res { st with h := listClear st.h a FUEL } "ok"
+      | "xunlink" => res { st with h := nodeUnlink st.h a } "ok"
+      | "xpop_front" => res { st with h := listPopFront st.h a } "ok"
+      | "xpop_back" => res { st with h := listPopBack st.h a } "ok"
+      | "xsize" => res st (toString (circularSize st.h FUEL a - 1))
+      | "xempty" => res st (if st.h.next a ≠ a then "0" else "1")
+      | "xlinked" => res st (if st.h.next a ≠ a then "1" else "0")
+      | "xcorrect" => res st (if circularSize st.h FUEL a == reverseCircularSize st.h FUEL a then "1" else "0")
+      | "xiter" => res st (ids (dlistToList st.h FUEL a))
+      | "xriter" => res st (ids (dlistToListRev st.h FUEL a))
+      | "xround_left" => res { st with h := listRoundLeft st.h a } "ok"
+      | "xwalk" => res st (ids (dlistToList st.h FUEL a) ++ "/" ++ ids (dlistToListRev st.h FUEL a))
+      | "xfront" => res st (toString (xId (listFront st.h (BitVec.ofNat 64 a) XOFF)))
+      | "xback" => res st (toString (xId (listBack st.h (BitVec.ofNat 64 a) XOFF)))
+      | "sinit" => res { st with s := slistInit st.s a } "ok"
+      | "spop" =>
+        let (s', r) := slistPopFirst st.s a
+        res { st with s := s' } (match r with | some v => toString v | none => "null")
+      | "ssize" => res st (toString (slistSize st.s FUEL a))
+      | "sempty" => res st (if slistEmpty st.s a then "1" else "0")
+      | "slist" => res st (ids (slistToList st.s FUEL a))
+      | "hhead_init" => res { st with hh := hlistHeadInit st.hh a } "ok"
+      | "hnode_init" => res { st with hh := hlistNodeInit st.hh a } "ok"
+      | "hdel" => res { st with hh := hlistDel st.hh a } "ok"
+      | "hlist" => res st (ids (hlistToList st.hh FUEL a))
+      | "hentries" => res st (ids (hlistToList st.hh FUEL a))
+      | "sxiter" => res st (ids (slistToList st.s FUEL a))
+      | _ => bad
   | _ => bad
 
 def main : IO Unit := run ({} : DState) stepLine
